@@ -52,7 +52,7 @@ Variable x : env.
 
 Definition c_nv (j : Z) := new_vals 0 (n_vals n j) (ops_on j (c_ops c)).
 Definition c_bound (j : Z) := any_bound (c_nv j).
-Definition c_args (j : Z) := c_nv j ++ c_bc c.
+Definition c_args (j : Z) := c_nv j ++ c_bc c j.
 
 (* scheduling side, before the node runs: the cycle begins; every live child whose arguments ticked is notified *)
 Definition c_pushed : list nat :=
@@ -121,7 +121,8 @@ Definition node_cycle : nstate S :=
 (* Is the map node evaluated in this cycle of the owning graph?  It must be when its slot holds the cycle time
    or one of its inputs ticked; otherwise the cycle passes it by: only the owning graph's clock moves. *)
 Definition c_required : bool :=
-  (s_pslot c_sch2 =? c_t c) || negb (match c_ops c with [] => true | _ :: _ => false end) || any_mod (c_bc c).
+  (s_pslot c_sch2 =? c_t c) || negb (match c_ops c with [] => true | _ :: _ => false end) ||
+  existsb (fun j => any_mod (c_bc c j)) keys.
 
 Definition node_idle : nstate S :=
   mkN (do_tick (c_t c) (n_sch n)) (n_store n) (n_slot n) (n_vals n) (n_primed n)
